@@ -7,7 +7,9 @@ from typing import Dict, List
 from hypothesis import strategies as st
 
 POL_FIXED = ["I", "X", "Y", "Z", "H", "S", "T", "SX"]
-angle = st.floats(-4 * math.pi, 4 * math.pi, allow_nan=False, allow_infinity=False)
+# |x| < 1e-100 is flushed to exactly 0: an angle of 1e-255 leaves amplitudes of 1e-255 whose squares underflow to 0
+# in IEEE double, so no density-matrix reference (nor the library's own renormalisation) can represent them
+angle = st.floats(-4 * math.pi, 4 * math.pi, allow_nan=False, allow_infinity=False).map(lambda x: 0.0 if abs(x) < 1e-100 else x)
 small_c = st.one_of(
     st.builds(lambda r, ph: [r * math.cos(ph), r * math.sin(ph)], st.floats(0.05, 1.0), st.floats(-math.pi, math.pi)),
     st.builds(lambda r, ph: [r * math.cos(ph), r * math.sin(ph)], st.floats(0.05, 1.0), st.floats(-math.pi, math.pi)),
